@@ -18,7 +18,11 @@ package collection
 import (
 	"errors"
 	"fmt"
+	"io"
+	"math"
+	"reflect"
 	"sort"
+	"strings"
 	"sync"
 	"sync/atomic"
 	"testing"
@@ -56,17 +60,88 @@ type c17Taker struct {
 	Lat int  `json:"lat"`           // fetch latency = Lat*100 ms + 20 ms
 	Err bool `json:"err,omitempty"` // fetch fails
 	Pan bool `json:"pan,omitempty"` // fetch panics (recovered by the calling goroutine of the harness)
+	// Re: the fetch function calls back into the same cache right before it
+	// ends: "get" / "set" / "del" of the NEXT key (index Key+1 mod nk). Legal
+	// today because Take holds no lock while fetch runs. Never the key being
+	// taken (a nested Take of it would wait for itself).
+	Re string `json:"re,omitempty"`
 }
 
-// c17Panic is the value a panicking fetch panics with.
+// c17Panic is one of the values a panicking fetch panics with.
 type c17Panic struct{ id int }
+
+// c17Box / c17Err: pointer, struct and typed-nil shapes of cached values and of
+// fetch errors. The cache treats values and errors as opaque `any`/`error`.
+type c17Box struct{ ID int }
+
+type c17Err struct{ id int }
+
+func (e *c17Err) Error() string { return fmt.Sprintf("c17 fetch error %d", e.id) } // panics on a typed nil, like most real error types
+
+// c17Val maps a value id (unique per Set / fetch of a case) to the cached value:
+// the id selects the dynamic type too, so every history mixes ints, strings,
+// uncomparable slices, pointers, structs, nil and typed nil pointers.
+func c17Val(id int) any {
+	switch id % 7 {
+	case 1:
+		return fmt.Sprintf("v%d", id)
+	case 2:
+		return []int{id}
+	case 3:
+		return &c17Box{id}
+	case 4:
+		return c17Box{id}
+	case 5:
+		return nil
+	case 6:
+		return (*c17Box)(nil)
+	}
+	return id
+}
+
+func c17Same(got any, id int) bool { return reflect.DeepEqual(got, c17Val(id)) }
+
+func c17ErrVal(id int) error {
+	switch id % 5 {
+	case 1:
+		return fmt.Errorf("c17 fetch error %d: %w", id, io.EOF)
+	case 2:
+		return io.EOF
+	case 3:
+		return &c17Err{id}
+	case 4:
+		return (*c17Err)(nil) // nil pointer inside a non-nil error interface: still a failure
+	}
+	return errors.New(fmt.Sprintf("c17 fetch error %d", id))
+}
+
+func c17PanicVal(id int) any {
+	switch id % 3 {
+	case 1:
+		return fmt.Errorf("c17 fetch panic %d", id)
+	case 2:
+		return fmt.Sprintf("c17 fetch panic %d", id)
+	}
+	return c17Panic{id}
+}
+
+// c17RealKeys: the strings handed to the cache for key indices 0..5. Alphabet 0
+// is k0..k5; alphabet 1 uses the empty key, format verbs, NUL, invalid UTF-8,
+// multi-byte text and a 64 KiB + 1 key. Models and messages use the labels k<i>.
+func c17RealKeys(alphabet int) []string {
+	if alphabet == 1 {
+		return []string{"", "%s%d%!v(MISSING)%", "a\x00b", "\xff\xfe\xfd", "Ключ-键-🔑", strings.Repeat("long/*?[", 8192) + "x"}
+	}
+	return []string{"k0", "k1", "k2", "k3", "k4", "k5"}
+}
 
 type c17Op struct {
 	K   string     `json:"k"`             // set setx get del adv take
 	C   int        `json:"c,omitempty"`   // cache index (take: see the callers)
 	Key int        `json:"key,omitempty"` // key index (take: see the callers)
 	E   int        `json:"e,omitempty"`   // setx: expiry in ms
-	N   int        `json:"n,omitempty"`   // adv: ticks
+	N   int        `json:"n,omitempty"`   // adv: ticks; churn: iterations
+	M   int        `json:"m,omitempty"`   // churn: 0 = Set+Del cycling over 3 extra keys, 1 = Set of N distinct extra keys (evicted by the limit)
 	T   []c17Taker `json:"t,omitempty"`   // take: the callers
 }
 
@@ -86,6 +161,11 @@ type c17Case struct {
 	// Shared: both caches are built from ONE []CacheOption slice (WithLimit(Limit),
 	// WithName(Name)); C2.Limit and C2.Name then equal those of cache 0
 	Shared bool `json:"shared,omitempty"`
+	// Opt: shape of the option list. bit 0: WithName before WithLimit; bit 1: a
+	// limit <= 0 (0 or -1, "no limit") is passed explicitly as WithLimit(limit)
+	Opt int `json:"opt,omitempty"`
+	// KA: key alphabet (see c17RealKeys)
+	KA int `json:"ka,omitempty"`
 	C2    *c17Cfg `json:"c2,omitempty"`   // second cache, created 1 us after the first
 	J     int     `json:"j"`     // ns slept before NewCache (seeds the cache's jitter PRNG)
 	Off   int     `json:"off"`   // wheel phase: ticks before the first op
@@ -94,6 +174,12 @@ type c17Case struct {
 }
 
 func c17Key(i int) string { return fmt.Sprintf("k%d", i) }
+
+func c17KeyIndex(label string) int {
+	var i int
+	fmt.Sscanf(label, "k%d", &i)
+	return i
+}
 
 // c17Window: an entry set when the wheel has seen n0 ticks is scheduled with
 // delay d = expire*(1.05 - 0.1u), u in [0,1), i.e. 0.95e < d <= 1.05e (float
@@ -112,6 +198,23 @@ func c17Key(i int) string { return fmt.Sprintf("k%d", i) }
 func c17Sub(expMs int) bool {
 	return int64(expMs)*1000*95/100-1000 < 1000000
 }
+
+// c17MaxMs encodes time.Duration(math.MaxInt64), the "never expires" idiom.
+const c17MaxMs = math.MaxInt64 / 1000000
+
+func c17Dur(expMs int) time.Duration {
+	if expMs >= c17MaxMs {
+		return math.MaxInt64
+	}
+	return time.Duration(expMs) * time.Millisecond
+}
+
+// c17Overflows: 1.05*expire is not representable as a Duration (expire above
+// MaxInt64/1.05 ns, e.g. time.Duration(math.MaxInt64) = "never"). Such entries
+// are ordinary long-expiry entries for the oracle. (Findings expiry-jitter-overflow
+// and set-after-rejected-expiry, fixed in /repo 00e8b57 and e9f3578, see FINDINGS.md;
+// regression replays in /verif/replays/C17.)
+func c17Overflows(expMs int) bool { return c17Dur(expMs) > math.MaxInt64/105*100 }
 
 func c17Window(expMs int) (lo, hi int) {
 	us := int64(expMs) * 1000
@@ -134,6 +237,7 @@ type c17Ent struct {
 	lo, hi int
 	long   bool // expiry > c17LongMs: never ticked through
 	sub    bool // c17Sub: may be dropped at any time from its Set on
+	free   bool // expiry <= 0: the statement says nothing about its lifetime
 }
 
 type c17Model struct {
@@ -147,6 +251,8 @@ type c17Model struct {
 	// shortEnd: latest tick at which any non-long expiry ever set in the case
 	// (overwritten or not) could still fire; the horizon runs past it
 	shortEnd int
+	// failKey: key a failure is about
+	failKey string
 }
 
 func c17NewModel(limit int, classes map[string]bool) *c17Model {
@@ -178,7 +284,9 @@ func (m *c17Model) set(k string, val, tick, expMs int) string {
 	if old, live := m.ents[k]; live && !old.long && expMs > c17LongMs {
 		m.classes["reset-short-to-long"] = true
 	}
-	if expMs > c17LongMs {
+	if expMs <= 0 {
+		// lifetime unspecified: no window, no horizon
+	} else if expMs > c17LongMs {
 		m.classes["set-long-expiry"] = true
 		if expMs > 10*c17DayMs {
 			m.classes["set-expiry-over-10-days"] = true
@@ -186,9 +294,16 @@ func (m *c17Model) set(k string, val, tick, expMs int) string {
 	} else if tick+hi > m.shortEnd {
 		m.shortEnd = tick + hi
 	}
-	m.ents[k] = &c17Ent{val: val, set: tick, lo: lo, hi: hi, long: expMs > c17LongMs, sub: c17Sub(expMs)}
-	if c17Sub(expMs) {
+	m.ents[k] = &c17Ent{val: val, set: tick, lo: lo, hi: hi, long: expMs > c17LongMs, sub: c17Sub(expMs), free: expMs <= 0}
+	switch {
+	case expMs <= 0:
+		m.classes["set-nonpositive-expiry"] = true
+	case c17Sub(expMs):
 		m.classes["set-sub-interval-expiry"] = true
+	case c17Overflows(expMs):
+		m.classes["set-expiry-above-maxint64/1.05"] = true
+	case expMs >= 36500*c17DayMs:
+		m.classes["set-expiry-100-years-or-more"] = true
 	}
 	m.touch(k)
 	if m.limit > 0 && len(m.order) > m.limit {
@@ -218,15 +333,25 @@ func (m *c17Model) reconcile(snap map[string]any, T int, what string) string {
 		age := T - e.set
 		v, present := snap[k]
 		if present {
-			if v != any(e.val) {
-				return fmt.Sprintf("%s: cache holds %s=%v at tick %d, most recently set value is %d", what, k, v, T, e.val)
+			if !c17Same(v, e.val) {
+				m.failKey = k
+				return fmt.Sprintf("%s: cache holds %s=%#v at tick %d, most recently set value is #%d = %#v", what, k, v, T, e.val, c17Val(e.val))
+			}
+			if e.free {
+				continue
 			}
 			if age >= e.hi {
+				m.failKey = k
 				return fmt.Sprintf("%s: %s (set at tick %d, window [%d,%d] ticks) still present at tick %d, age %d ticks >= 105%% bound", what, k, e.set, e.lo, e.hi, T, age)
 			}
 			if age >= e.lo {
 				m.classes["in-window-present"] = true
 			}
+			continue
+		}
+		if e.free {
+			m.classes["nonpositive-expiry-entry-gone"] = true
+			m.drop(k)
 			continue
 		}
 		if e.sub { // unspecified instant: from the Set on (age >= hi is checked above)
@@ -247,6 +372,7 @@ func (m *c17Model) reconcile(snap map[string]any, T int, what string) string {
 			lastOK = T
 		}
 		if first > lastOK {
+			m.failKey = k
 			return fmt.Sprintf("%s: %s=%d (set at tick %d, may be dropped for age only %d..%d ticks later) is missing at tick %d (age %d, previous check at tick %d) although not deleted/evicted in the model (model order %v)", what, k, e.val, e.set, e.lo, e.hi, T, age, m.last, m.order)
 		}
 		m.classes["expired"] = true
@@ -296,6 +422,9 @@ type c17Ev struct {
 	err  error
 	pan  bool // the call of Take panicked
 	pval any  // with this value
+	rv     any  // re-entrant get: result
+	rok    bool // re-entrant get: found
+	relock bool // fetch found the cache lock held (re-entrant call not made)
 	snap []map[string]any // per cache
 }
 
@@ -314,7 +443,7 @@ func c17Lat(tk c17Taker) time.Duration {
 // are only that all of them return when the execution ends, that nothing is
 // cached, and that the execution is over: a later caller of the key is judged
 // by the normal rules (it must run a fetch of its own).
-func c17CheckGroup(ms []*c17Model, exps []int, op c17Op, vals []int, errs []error, log []c17Ev, what string) string {
+func c17CheckGroup(ms []*c17Model, exps []int, op c17Op, nk int, vals, rvals []int, errs []error, pvals []any, log []c17Ev, what string) string {
 	type flight struct {
 		leader  int
 		start   time.Duration
@@ -363,10 +492,18 @@ func c17CheckGroup(ms []*c17Model, exps []int, op c17Op, vals []int, errs []erro
 		if len(ms) > 1 && fkey != "" {
 			w += fmt.Sprintf(" cache %d", ci)
 		}
+		for _, x := range ms {
+			x.failKey = ""
+		}
 		m, expMs := ms[ci], exps[ci]
+		m.failKey = key
 		fl := flights[fkey]
 		for _, r := range ret {
-			if _, own := r.pval.(c17Panic); r.pan && !own {
+			own := false
+			for _, pv := range pvals {
+				own = own || (r.pan && r.pval == pv)
+			}
+			if r.pan && !own {
 				return fmt.Sprintf("%s: Take of caller %d panicked with %v", w, r.who, r.pval)
 			}
 		}
@@ -396,13 +533,42 @@ func c17CheckGroup(ms []*c17Model, exps []int, op c17Op, vals []int, errs []erro
 				return w + ": harness: fetch completion at unexpected instant"
 			}
 			tk := op.T[fl.leader]
+			if tk.Re != "" && nk > 1 {
+				// the re-entrant call happened right before the fetch ended
+				if fen[0].relock {
+					return fmt.Sprintf("%s: the fetch function of caller %d was called with the cache lock held: a fetch that reads or writes another key of the same cache (legal, Take documents no restriction) would block for good", w, fl.leader)
+				}
+				other := c17Key((tk.Key + 1) % nk)
+				m.classes["fetch-reentrant-"+tk.Re] = true
+				switch tk.Re {
+				case "get":
+					oe, live := m.ents[other]
+					if live && oe.free && !fen[0].rok {
+						m.drop(other)
+						live = false
+					}
+					if live {
+						if !fen[0].rok || !c17Same(fen[0].rv, oe.val) {
+							m.failKey = other
+							return fmt.Sprintf("%s: Get(%s) called from inside the fetch of caller %d returned (%#v,%v), most recently set value #%d", w, other, fl.leader, fen[0].rv, fen[0].rok, oe.val)
+						}
+						m.touch(other)
+					} else if fen[0].rok {
+						return fmt.Sprintf("%s: Get(%s) called from inside the fetch of caller %d returned (%#v,true) for an absent key", w, other, fl.leader, fen[0].rv)
+					}
+				case "set":
+					m.set(other, rvals[fl.leader], tick, expMs)
+				case "del":
+					m.drop(other)
+				}
+			}
 			if tk.Pan {
 				for _, r := range ret {
 					if !fl.waiters[r.who] {
 						return fmt.Sprintf("%s: caller %d returned with an execution it was not waiting for", w, r.who)
 					}
-					if r.pan && r.pval != any(c17Panic{vals[fl.leader]}) {
-						return fmt.Sprintf("%s: caller %d panicked with %v, the fetch of caller %d panicked with %v", w, r.who, r.pval, fl.leader, c17Panic{vals[fl.leader]})
+					if r.pan && r.pval != pvals[fl.leader] {
+						return fmt.Sprintf("%s: caller %d panicked with %v, the fetch of caller %d panicked with %v", w, r.who, r.pval, fl.leader, pvals[fl.leader])
 					}
 					returned[r.who] = true
 					delete(fl.waiters, r.who)
@@ -429,8 +595,8 @@ func c17CheckGroup(ms []*c17Model, exps []int, op c17Op, vals []int, errs []erro
 					if r.err != errs[fl.leader] || r.val != nil {
 						return fmt.Sprintf("%s: caller %d got (%v,%v), the shared fetch (caller %d) failed with %v", w, r.who, r.val, r.err, fl.leader, errs[fl.leader])
 					}
-				} else if r.err != nil || r.val != any(vals[fl.leader]) {
-					return fmt.Sprintf("%s: caller %d got (%v,%v), the shared fetch (caller %d) returned %d", w, r.who, r.val, r.err, fl.leader, vals[fl.leader])
+				} else if r.err != nil || !c17Same(r.val, vals[fl.leader]) {
+					return fmt.Sprintf("%s: caller %d got (%#v,%v), the shared fetch (caller %d) returned #%d = %#v", w, r.who, r.val, r.err, fl.leader, vals[fl.leader], c17Val(vals[fl.leader]))
 				}
 				returned[r.who] = true
 				delete(fl.waiters, r.who)
@@ -486,8 +652,8 @@ func c17CheckGroup(ms []*c17Model, exps []int, op c17Op, vals []int, errs []erro
 					if !arrived[r.who] || returned[r.who] {
 						return fmt.Sprintf("%s: caller %d returned out of turn", w, r.who)
 					}
-					if r.pan || r.err != nil || r.val != any(ent.val) {
-						return fmt.Sprintf("%s: caller %d got (%v,%v), cached value is %d", w, r.who, r.val, r.err, ent.val)
+					if r.pan || r.err != nil || !c17Same(r.val, ent.val) {
+						return fmt.Sprintf("%s: caller %d got (%#v,%v), cached value is #%d = %#v", w, r.who, r.val, r.err, ent.val, c17Val(ent.val))
 					}
 					got[r.who] = true
 					returned[r.who] = true
@@ -539,6 +705,9 @@ func c17CheckGroup(ms []*c17Model, exps []int, op c17Op, vals []int, errs []erro
 			}
 		}
 	}
+	for _, x := range ms {
+		x.failKey = ""
+	}
 	if len(flights) != 0 {
 		return what + ": an execution of fetch never completed"
 	}
@@ -578,7 +747,12 @@ func c17Keys(s map[int]bool) []int {
 
 // ---- interpreter ----
 
-func c17Run(c c17Case, classes map[string]bool) string {
+func c17Run(c c17Case, classes map[string]bool) (fail, known string) {
+	fail = c17Run1(c, classes, &known)
+	return
+}
+
+func c17Run1(c c17Case, classes map[string]bool, known *string) string {
 	start := time.Now()
 	elapsed := func() time.Duration { return time.Since(start) }
 	if c.J > 0 {
@@ -611,25 +785,43 @@ func c17Run(c c17Case, classes map[string]bool) string {
 		if i > 0 && c.Shared {
 			opts = sharedOpts // the very option values cache 0 was built from
 		} else {
-			if cfg.Limit > 0 {
+			if cfg.Limit > 0 || c.Opt&2 != 0 {
 				opts = append(opts, WithLimit(cfg.Limit))
+				if cfg.Limit <= 0 {
+					classes["opt-explicit-nonpositive-limit"] = true
+				}
 			}
 			if cfg.Name != "" {
 				opts = append(opts, WithName(cfg.Name))
+				if c.Opt&1 != 0 && len(opts) == 2 {
+					opts[0], opts[1] = opts[1], opts[0]
+					classes["opt-name-before-limit"] = true
+				}
 			}
 			sharedOpts = opts
+		}
+		if cfg.Limit < 0 {
+			cfg.Limit = 0 // "no limit"
 		}
 		if cfg.Limit > 0 {
 			classes[fmt.Sprintf("limit-%d", cfg.Limit)] = true
 		} else {
 			classes["limit-none"] = true
 		}
-		cache, err := NewCache(time.Duration(cfg.Exp)*time.Millisecond, opts...)
+		cache, err := NewCache(c17Dur(cfg.Exp), opts...)
 		if err != nil {
 			return "NewCache: " + err.Error()
 		}
 		defer cache.timingWheel.Stop()
 		insts = append(insts, &inst{cache: cache, m: c17NewModel(cfg.Limit, classes), exp: cfg.Exp})
+	}
+	real := c17RealKeys(c.KA)
+	label := map[string]string{}
+	for i, r := range real {
+		label[r] = c17Key(i)
+	}
+	if c.KA != 0 {
+		classes["key-alphabet-special"] = true
 	}
 	pick := func(ci int) *inst {
 		if ci < 0 || ci >= len(insts) {
@@ -665,6 +857,9 @@ func c17Run(c c17Case, classes map[string]bool) string {
 		defer cache.lock.Unlock()
 		s := make(map[string]any, len(cache.data))
 		for k, v := range cache.data {
+			if l, ok := label[k]; ok {
+				k = l
+			}
 			s[k] = v
 		}
 		return s
@@ -695,7 +890,7 @@ func c17Run(c c17Case, classes map[string]bool) string {
 			minStart := 1 << 30
 			for _, in := range insts {
 				for _, e := range in.m.ents {
-					if s := e.set + e.lo; s < minStart {
+					if s := e.set + e.lo; s < minStart && !e.free {
 						minStart = s
 					}
 				}
@@ -713,7 +908,7 @@ func c17Run(c c17Case, classes map[string]bool) string {
 		}
 	}
 	wheelPos := func(cache *Cache, key string) (int, bool) {
-		v, ok := cache.timingWheel.timers.Get(key)
+		v, ok := cache.timingWheel.timers.Get(real[c17KeyIndex(key)])
 		if !ok {
 			return 0, false
 		}
@@ -752,9 +947,9 @@ func c17Run(c c17Case, classes map[string]bool) string {
 		now := tickNow()
 		if !run(func() {
 			if custom {
-				cache.SetWithExpire(key, val, time.Duration(expMs)*time.Millisecond)
+				cache.SetWithExpire(real[c17KeyIndex(key)], c17Val(val), c17Dur(expMs))
 			} else {
-				cache.Set(key, val)
+				cache.Set(real[c17KeyIndex(key)], c17Val(val))
 			}
 		}) {
 			return what + ": Set did not return (blocked with every goroutine of the bubble idle)"
@@ -797,6 +992,10 @@ func c17Run(c c17Case, classes map[string]bool) string {
 	for i, o := range c.Ops {
 		what := fmt.Sprintf("op %d %s (tick %d)", i, c17OpString(o), tickNow())
 		key := c17Key(o.Key)
+		rk := real[o.Key%len(real)]
+		for _, x := range insts {
+			x.m.failKey = ""
+		}
 		in := pick(o.C)
 		cache, m := in.cache, in.m
 		switch o.K {
@@ -811,13 +1010,18 @@ func c17Run(c c17Case, classes map[string]bool) string {
 		case "get":
 			var v any
 			var ok bool
-			if !run(func() { v, ok = cache.Get(key) }) {
+			if !run(func() { v, ok = cache.Get(rk) }) {
 				return what + ": Get did not return (blocked with every goroutine of the bubble idle)"
 			}
 			e, live := m.ents[key]
+			if live && e.free && !ok {
+				m.drop(key) // lifetime unspecified
+				live = false
+			}
 			if live {
-				if !ok || v != any(e.val) {
-					return fmt.Sprintf("%s: Get returned (%v,%v), most recently set value %d (set at tick %d, window [%d,%d]) not deleted/evicted/expired", what, v, ok, e.val, e.set, e.lo, e.hi)
+				if !ok || !c17Same(v, e.val) {
+					m.failKey = key
+					return fmt.Sprintf("%s: Get returned (%#v,%v), most recently set value #%d (set at tick %d, window [%d,%d]) not deleted/evicted/expired", what, v, ok, e.val, e.set, e.lo, e.hi)
 				}
 				m.touch(key)
 				classes["get-hit"] = true
@@ -831,7 +1035,7 @@ func c17Run(c c17Case, classes map[string]bool) string {
 				return f
 			}
 		case "del":
-			if !run(func() { cache.Del(key) }) {
+			if !run(func() { cache.Del(rk) }) {
 				return what + ": Del did not return (blocked with every goroutine of the bubble idle)"
 			}
 			if _, live := m.ents[key]; live {
@@ -857,19 +1061,31 @@ func c17Run(c c17Case, classes map[string]bool) string {
 				if o.T[j].C < 0 || o.T[j].C >= len(insts) {
 					o.T[j].C = 0
 				}
+				// A re-entrant Set uses the cache's default expiry. With a sub-interval
+				// default the instant at which the overwritten entry vanishes is
+				// unspecified and, inside a group, not observed before the next event:
+				// such a call is made a re-entrant Get instead.
+				if o.T[j].Re == "set" && c17Sub(insts[o.T[j].C].exp) {
+					o.T[j].Re = "get"
+				}
 			}
 			o.T = c17NormTakers(o.T)
 			n := len(o.T)
 			vals := make([]int, n)
 			errs := make([]error, n)
+			pvals := make([]any, n)
+			rvals := make([]int, n)
 			for j := range o.T {
 				if f := c17FirstAt(o.T, j); f < j {
-					vals[j], errs[j] = vals[f], errs[f]
+					vals[j], errs[j], pvals[j], rvals[j] = vals[f], errs[f], pvals[f], rvals[f]
 					continue
 				}
 				nextVal++
+				rvals[j] = nextVal
+				nextVal++
 				vals[j] = nextVal
-				errs[j] = errors.New(fmt.Sprintf("c17 fetch error %d", nextVal))
+				errs[j] = c17ErrVal(nextVal)
+				pvals[j] = c17PanicVal(nextVal)
 			}
 			var mu sync.Mutex
 			var log []c17Ev
@@ -896,17 +1112,34 @@ func c17Run(c c17Case, classes map[string]bool) string {
 					ev := c17Ev{kind: c17EvReturn, who: j, pan: true}
 					func() {
 						defer func() { ev.pval = recover() }()
-						ev.val, ev.err = cache.Take(c17Key(tk.Key), func() (any, error) {
+						ev.val, ev.err = cache.Take(real[tk.Key%len(real)], func() (any, error) {
 							rec(c17Ev{kind: c17EvFetchStart, who: j})
 							time.Sleep(c17Lat(tk))
-							rec(c17Ev{kind: c17EvFetchEnd, who: j})
+							fe := c17Ev{kind: c17EvFetchEnd, who: j}
+							if tk.Re != "" && c.NK > 1 {
+								other := real[(tk.Key+1)%c.NK]
+								if !cache.lock.TryLock() {
+									fe.relock = true
+								} else {
+									cache.lock.Unlock()
+									switch tk.Re {
+									case "get":
+										fe.rv, fe.rok = cache.Get(other)
+									case "set":
+										cache.Set(other, c17Val(rvals[j]))
+									case "del":
+										cache.Del(other)
+									}
+								}
+							}
+							rec(fe)
 							if tk.Pan {
-								panic(c17Panic{vals[j]})
+								panic(pvals[j])
 							}
 							if tk.Err {
 								return nil, errs[j]
 							}
-							return vals[j], nil
+							return c17Val(vals[j]), nil
 						})
 						ev.pan = false
 					}()
@@ -950,10 +1183,58 @@ func c17Run(c c17Case, classes map[string]bool) string {
 			for _, in := range insts {
 				ms, exps = append(ms, in.m), append(exps, in.exp)
 			}
-			if f := c17CheckGroup(ms, exps, o, vals, errs, log, what); f != "" {
+			if f := c17CheckGroup(ms, exps, o, c.NK, vals, rvals, errs, pvals, log, what); f != "" {
 				return f
 			}
 			if f := check(what + " end"); f != "" {
+				return f
+			}
+		case "churn":
+			// long-lived instance: thousands of cheap operations on extra keys x<i>
+			// in one virtual instant while the ordinary entries stay pending, then the
+			// history goes on (the wheel's timer index is a SafeMap that rebuilds
+			// itself after 10 000 deletions)
+			mode := o.M
+			if m.limit <= 0 {
+				mode = 0
+			}
+			names := make([]string, o.N)
+			ids := make([]int, o.N)
+			for i := range names {
+				if mode == 0 {
+					names[i] = fmt.Sprintf("x%d", i%3)
+				} else {
+					names[i] = fmt.Sprintf("x%d", i)
+				}
+				nextVal++
+				ids[i] = nextVal
+			}
+			if !run(func() {
+				for i, name := range names {
+					cache.Set(name, c17Val(ids[i]))
+					if mode == 0 {
+						cache.Del(name)
+					}
+				}
+			}) {
+				return what + ": churn did not return (blocked with every goroutine of the bubble idle)"
+			}
+			now := tickNow()
+			for i, name := range names {
+				m.set(name, ids[i], now, in.exp)
+				if mode == 0 {
+					m.drop(name)
+				}
+			}
+			switch {
+			case o.N >= 10000 && mode == 0:
+				classes["churn-set-del-10k+"] = true
+			case o.N >= 10000:
+				classes["churn-evict-10k+"] = true
+			default:
+				classes["churn-below-10k"] = true
+			}
+			if f := check(what); f != "" {
 				return f
 			}
 		default:
@@ -966,10 +1247,14 @@ func c17Run(c c17Case, classes map[string]bool) string {
 		cache, m := in.cache, in.m
 		for i := 0; i < c.NK; i++ {
 			key := c17Key(i)
-			v, ok := cache.Get(key)
+			v, ok := cache.Get(real[i])
+			if e, live := m.ents[key]; live && e.free && !ok {
+				m.drop(key)
+			}
 			if e, live := m.ents[key]; live {
-				if !ok || v != any(e.val) {
-					return fmt.Sprintf("%s (tick %d): Get(%s) returned (%v,%v), most recently set value %d (set at tick %d, window [%d,%d])", tag(ci, "final sweep"), tickNow(), key, v, ok, e.val, e.set, e.lo, e.hi)
+				if !ok || !c17Same(v, e.val) {
+					m.failKey = key
+					return fmt.Sprintf("%s (tick %d): Get(%s) returned (%#v,%v), most recently set value %d (set at tick %d, window [%d,%d])", tag(ci, "final sweep"), tickNow(), key, v, ok, e.val, e.set, e.lo, e.hi)
 				}
 				m.touch(key)
 			} else if ok {
@@ -993,15 +1278,22 @@ func c17Run(c c17Case, classes map[string]bool) string {
 	for ci, in := range insts {
 		cache, m := in.cache, in.m
 		for k, e := range m.ents {
+			if e.free {
+				continue
+			}
 			if !e.long {
 				panic("c17 harness: short-lived " + k + " in the model after the horizon")
 			}
 			classes["long-expiry-survives-horizon"] = true
 		}
 		for i := 0; i < c.NK; i++ {
-			v, ok := cache.Get(c17Key(i))
+			v, ok := cache.Get(real[i])
+			if e, live := m.ents[c17Key(i)]; live && e.free && !ok {
+				m.drop(c17Key(i))
+			}
 			if e, live := m.ents[c17Key(i)]; live {
-				if !ok || v != any(e.val) {
+				if !ok || !c17Same(v, e.val) {
+					m.failKey = c17Key(i)
 					return fmt.Sprintf("%s (tick %d): Get(%s) returned (%v,%v), most recently set value %d (set at tick %d, may be dropped for age only %d..%d ticks later)", tag(ci, "after horizon"), tickNow(), c17Key(i), v, ok, e.val, e.set, e.lo, e.hi)
 				}
 			} else if ok {
@@ -1020,6 +1312,8 @@ func c17OpString(o c17Op) string {
 		return fmt.Sprintf("setx(c%d,k%d,%dms)", o.C, o.Key, o.E)
 	case "adv":
 		return fmt.Sprintf("adv(%d)", o.N)
+	case "churn":
+		return fmt.Sprintf("churn(c%d,n=%d,mode=%d)", o.C, o.N, o.M)
 	case "take":
 		return fmt.Sprintf("take(%+v)", o.T)
 	}
@@ -1027,9 +1321,9 @@ func c17OpString(o c17Op) string {
 }
 
 func c17Interp(t *testing.T, c c17Case) (v kit.Verdict) {
-	var fail string
+	var fail, known string
 	classes := map[string]bool{}
-	res := kit.Bubble(t, func() { fail = c17Run(c, classes) })
+	res := kit.Bubble(t, func() { fail, known = c17Run(c, classes) })
 	v.NonTrivial = classes["reset-straddle"] || classes["evict"] || classes["take-overlap"]
 	for k := range classes {
 		v.Classes = append(v.Classes, k)
@@ -1038,6 +1332,7 @@ func c17Interp(t *testing.T, c c17Case) (v kit.Verdict) {
 	switch {
 	case fail != "":
 		v.Fail = fail
+		v.Known = known
 	case res.Hang || res.Panic != "":
 		// res.Leak is the expected residue (statLoop of NewCache never ends)
 		v.Fail = "bubble: " + res.String()
@@ -1048,7 +1343,13 @@ func c17Interp(t *testing.T, c c17Case) (v kit.Verdict) {
 // ---- generator ----
 
 func c17GenExp(rt *rapid.T, label string) int {
-	switch rapid.SampledFrom([]string{"small", "small", "small", "mid", "mid", "rev", "big", "long", "long", "sub"}).Draw(rt, label+"-class") {
+	switch rapid.SampledFrom([]string{"small", "small", "small", "mid", "mid", "rev", "big", "long", "long", "sub", "huge", "max", "nonpos"}).Draw(rt, label+"-class") {
+	case "huge": // scale-free magnitudes below the point where 1.05*e leaves the Duration range
+		return rapid.SampledFrom([]int{30 * c17DayMs, 36500 * c17DayMs, 91250 * c17DayMs, int(math.MaxInt64/105*100/1000000) - 1000}).Draw(rt, label)
+	case "max": // above MaxInt64/1.05 ns, up to time.Duration(math.MaxInt64) ("never"); finding expiry-jitter-overflow, fixed in 00e8b57
+		return rapid.SampledFrom([]int{c17MaxMs, 104025 * c17DayMs, int(math.MaxInt64/105*100/1000000) + 1000}).Draw(rt, label)
+	case "nonpos": // legal to pass, lifetime unspecified by the statement
+		return rapid.SampledFrom([]int{0, -1, -1000}).Draw(rt, label)
 	case "sub": // below (or just around) the wheel interval: 1 ms .. 1100 ms
 		return rapid.IntRange(1, 1100).Draw(rt, label)
 	case "long": // never ticked through: hours, days, and the multi-day values named in the follow-up
@@ -1145,6 +1446,9 @@ func c17GenRawOp(nk, nc int) *rapid.Generator[c17RawOp] {
 					At:  rapid.SampledFrom([]int{0, 0, 0, 1, 2, 5, 9, 10, 11, 20, 30}).Draw(rt, "at"),
 					Lat: rapid.SampledFrom([]int{0, 1, 3, 5, 10, 12, 25}).Draw(rt, "lat"),
 				})
+				if nk > 1 {
+					o.T[j].Re = rapid.SampledFrom([]string{"", "", "", "", "", "get", "set", "del"}).Draw(rt, "re")
+				}
 				switch rapid.IntRange(0, 7).Draw(rt, "outcome") {
 				case 0, 1:
 					o.T[j].Err = true
@@ -1161,6 +1465,11 @@ func c17GenRawOp(nk, nc int) *rapid.Generator[c17RawOp] {
 func c17Gen(rt *rapid.T) c17Case {
 	c := c17Case{}
 	c.Limit = rapid.SampledFrom([]int{0, 1, 2, 2, 3, 3, 4}).Draw(rt, "limit")
+	c.Opt = rapid.SampledFrom([]int{0, 0, 0, 1, 2, 3}).Draw(rt, "opt")
+	if c.Opt&2 != 0 && c.Limit == 0 && rapid.Bool().Draw(rt, "neg-limit") {
+		c.Limit = -1
+	}
+	c.KA = rapid.SampledFrom([]int{0, 0, 0, 1}).Draw(rt, "ka")
 	c.Exp = c17GenExp(rt, "exp")
 	c.J = rapid.IntRange(0, 999999).Draw(rt, "j")
 	switch rapid.SampledFrom([]string{"any", "any", "any", "end", "end", "begin"}).Draw(rt, "off-class") {
@@ -1179,12 +1488,13 @@ func c17Gen(rt *rapid.T) c17Case {
 	// with or without WithName (without: both carry the default name)
 	nc := 1
 	exps := []int{c.Exp}
+	c.Name = rapid.SampledFrom([]string{"", "", "n", "%s%d%!"}).Draw(rt, "name")
 	if rapid.IntRange(0, 7).Draw(rt, "two-caches") < 3 {
 		nc = 2
-		names := rapid.SampledFrom([][2]string{{"", ""}, {"", ""}, {"a", "a"}, {"", "a"}, {"a", "b"}}).Draw(rt, "names")
+		names := rapid.SampledFrom([][2]string{{"", ""}, {"", ""}, {"a", "a"}, {"", "a"}, {"a", "b"}, {"%s%d%!", "%s%d%!"}, {"proc", ""}}).Draw(rt, "names")
 		c.Name = names[0]
 		c.C2 = &c17Cfg{
-			Limit: rapid.SampledFrom([]int{0, 1, 2, 3, 4}).Draw(rt, "limit2"),
+			Limit: rapid.SampledFrom([]int{0, 1, 2, 3, 4, -1}).Draw(rt, "limit2"),
 			Exp:   c17GenExp(rt, "exp2"),
 			Name:  names[1],
 		}
@@ -1192,7 +1502,7 @@ func c17Gen(rt *rapid.T) c17Case {
 		if rapid.IntRange(0, 2).Draw(rt, "shared-options") == 0 {
 			// option values reused across instances: one []CacheOption for both caches
 			c.Shared = true
-			if c.Limit == 0 {
+			if c.Limit <= 0 {
 				c.Limit = rapid.IntRange(1, 3).Draw(rt, "shared-limit")
 			}
 			c.C2.Limit, c.C2.Name = c.Limit, c.Name
@@ -1246,6 +1556,16 @@ func c17Gen(rt *rapid.T) c17Case {
 		}
 		c.Ops = append(c.Ops, o)
 	}
+	// long-lived instance: in about one case of 40 one churn of 1 000..21 000
+	// operations is inserted somewhere into the history
+	if x := rapid.IntRange(0, 63).Draw(rt, "churn"); x == 37 || x == 21 {
+		ch := c17Op{K: "churn",
+			N: rapid.SampledFrom([]int{1000, 10500, 10500, 12000, 21000}).Draw(rt, "churn-n"),
+			M: rapid.IntRange(0, 1).Draw(rt, "churn-mode"),
+			C: rapid.IntRange(0, nc-1).Draw(rt, "churn-c")}
+		at := rapid.IntRange(0, len(c.Ops)).Draw(rt, "churn-at")
+		c.Ops = append(c.Ops[:at], append([]c17Op{ch}, c.Ops[at:]...)...)
+	}
 	return c
 }
 
@@ -1264,7 +1584,7 @@ func c17EnumerateResets(thorough bool) func(yield func(c17Case) bool) {
 	kinds := []string{"setx"}
 	if thorough {
 		e1s = []int{2000, 3000, 10000, 200000, 290000, 310000, 400000, 900000}
-		e2s = []int{2000, 10000, 100000, 290000, 310000, 650000, 1200000, 3600000, 7 * c17DayMs, 11 * c17DayMs, 12 * c17DayMs, 14 * c17DayMs, 20 * c17DayMs, 40 * c17DayMs}
+		e2s = []int{2000, 10000, 100000, 290000, 310000, 650000, 1200000, 3600000, 12 * c17DayMs, 20 * c17DayMs}
 		kinds = []string{"setx", "del-setx", "set"}
 	}
 	return func(yield func(c17Case) bool) {
